@@ -89,6 +89,21 @@ def to_csv(wb) -> str:
     return buf.getvalue()
 
 
+def to_csv_ragged(wb) -> str:
+    """the same CSV with the trailing empty cells of every row left out (what csv.writer gives for trimmed rows)"""
+    buf = io.StringIO(newline="")
+    w = csv.writer(buf, quoting=csv.QUOTE_ALL)
+    for s in wb["sheets"]:
+        w.writerow([s["name"]])
+        w.writerow([""] + [canon_cell(h) or "" for h in s["header"]])
+        for r in s["rows"]:
+            cells = [""] + [canon_cell(c) or "" for c in r]
+            while len(cells) > 2 and cells[-1] == "":
+                cells.pop()
+            w.writerow(cells)
+    return buf.getvalue()
+
+
 def to_xlsx(wb, typed=True) -> bytes:
     from openpyxl import Workbook
 
